@@ -616,6 +616,13 @@ func checkC17(p *Prog, r *Report) {
 					case bsl != nil:
 						if hi, okh := bsl.High.(*ssa.Const); bsl.High != nil && okh {
 							ok2, wit = sliceBoundOK(p, o, fa, in, bsl, xt, hi.Int64())
+							if !ok2 && xt.Op == "param" {
+								// the operand is a parameter of an (extracted) helper: the bound is a precondition discharged at
+								// every call site, all of which must be in scope
+								ok2, wit = boundAtCallSites(p, fn, xt, scope, func(co *Origin, cfa *Facts, at ssa.Instruction, arg *Term) (bool, string) {
+									return sliceBoundOK(p, co, cfa, at, bsl, arg, hi.Int64())
+								})
+							}
 						} else if bsl.High == nil && bsl.Low != nil {
 							// x[lo:] : freshly made buffer with len = lo + (non-negative lengths), or HasPrefix(x, p) with lo = len(p)
 							if ms, isMS := bx.(*ssa.MakeSlice); isMS {
@@ -1216,4 +1223,38 @@ func calledOnlyFromScope(p *Prog, fn *ssa.Function, scope []*ssa.Function) bool 
 		}
 	}
 	return true
+}
+
+// boundAtCallSites: fn's parameter (term prm = "$i:name") satisfies check at every call site of fn; all callers must be in scope.
+func boundAtCallSites(p *Prog, fn *ssa.Function, prm *Term, scope []*ssa.Function, check func(*Origin, *Facts, ssa.Instruction, *Term) (bool, string)) (bool, string) {
+	var idx int
+	if _, err := fmt.Sscanf(prm.Name, "%d:", &idx); err != nil {
+		return false, ""
+	}
+	if !calledOnlyFromScope(p, fn, scope) {
+		return false, ""
+	}
+	callers, _ := p.CallersOf(fn)
+	n := 0
+	wit := ""
+	for _, c := range callers {
+		co := NewOrigin(p, c)
+		cfa := NewFacts(p, c, co)
+		for _, cs := range callSites(c) {
+			if cs.Callee == nil || resolveBound(cs.Callee) != fn {
+				continue
+			}
+			args := cs.Instr.Common().Args
+			if idx >= len(args) {
+				return false, ""
+			}
+			n++
+			ok, w := check(co, cfa, cs.Instr.(ssa.Instruction), co.Of(args[idx]))
+			if !ok {
+				return false, "not established at the call in " + FuncName(c)
+			}
+			wit = w
+		}
+	}
+	return n > 0, fmt.Sprintf("precondition discharged at %d call site(s): %s", n, wit)
 }
